@@ -2,11 +2,11 @@ SPECIFICATION Spec
 CONSTANTS
   Appenders = {1, 2}
   Readers = {1, 2}
-  ReleaseBeforeSwap = TRUE
-  CurNilSafe = FALSE
+  ReleaseBeforeSwap = FALSE
+  CurNilSafe = TRUE
 INVARIANT OnlyFourStates
 INVARIANT ReaderNeverSeesFreed
 INVARIANT AckedIsSealed
 INVARIANT NoSpuriousEmpty
 INVARIANT NoDeadlock
-INVARIANT PanicOnlyAfterDeletion
+INVARIANT NoPanic
